@@ -146,6 +146,9 @@ def generate(seed, tier, index, focus):
                 steps.append({"op": "rereg_cli", "c": rng.randrange(8)})
             elif r < 0.42:
                 steps.append({"op": "blob", "c": rng.randrange(8), "device": rng.choice(["A", "B", "Z"]), "value": rng.choice(["Never", "Also", "Only"])})
+            elif r < 0.47:
+                # a real driver starts snooping on a device through its own snooping client (a client of the router in its own right)
+                steps.append({"op": "snoop", "d": rng.randrange(6), "device": rng.choice(["A", "B", "Z"]), "name": rng.choice([None, None, "TEXT"])})
             else:
                 from_client = rng.random() < (0.65 if focus == "C04" else 0.3)
                 if from_client:
@@ -218,6 +221,7 @@ class Checker:
         self.probes = {}
         self.log_lines = []
         self.ids = _IdMap()  # python object -> id string (keeps the objects alive: id() is never reused within a run)
+        self.expect_sender = None  # while a known client is sending: the id every client-kind router call must carry
 
     def idof(self, obj):
         if obj is None:
@@ -234,6 +238,9 @@ class Checker:
         kind = message.tag_name()
         dev = getattr(message, "device", None)
         sid = self.idof(sender)
+        if self.expect_sender is not None and not self.stack and kind in CLIENT_KINDS and sid != self.expect_sender:
+            # (outermost call only: nested calls are other endpoints reacting to what they were handed)
+            self.violate("C04.relay", f"{kind} sent by client {self.expect_sender} reached the router as coming from {sid}: the router cannot keep it from being handed back to its sender")
         st = self.model.abstract_state()
         self.states.add(st)
         self.transitions.add((_sh(st), kind, dev, sid))
@@ -274,7 +281,8 @@ class Checker:
             if k in CLIENT_KINDS and k != "getProperties":
                 clause = "C04.noleak"
             elif k == "getProperties":
-                clause = "C04.relay"
+                # relayed for snooping: a client's request is C04's clause, a device's own request is device traffic (C05)
+                clause = "C05.matrix" if str(sid or "").startswith("d") else "C04.relay"
             else:
                 clause = "C05.matrix"
             self.violate(clause, f"delivered to clients {frame['got_cli']} expected {frame['exp_cli']}; {ctx}")
@@ -397,6 +405,28 @@ def execute_level1(scen):
                             router.unregister_client(c)
                         router.register_client(c)
                         chk.probe("reregistered")
+                elif op == "snoop":
+                    drivers = [d for d in devices if isinstance(d, Driver)]
+                    if not drivers:
+                        continue
+                    drv = drivers[st["d"] % len(drivers)]
+                    fresh = drv._snooping_client is None
+                    sc = drv.snooping_client  # (created and registered with the router on first use)
+                    if fresh:
+                        chk.ids.hold(sc)
+                        orig_mfd = sc.message_from_device
+
+                        def spy_sc(message, sc=sc, orig_mfd=orig_mfd):
+                            chk.delivered("cli", chk.idof(sc), message)
+                            return orig_mfd(message)
+
+                        sc.message_from_device = spy_sc
+                    chk.expect_sender = chk.idof(sc)
+                    try:
+                        drv.snoop_device(st["device"], st["name"])
+                    finally:
+                        chk.expect_sender = None
+                    chk.probe("driver_snoops_through_its_own_client")
                 elif op == "blob":
                     if not clients:
                         continue
